@@ -1,5 +1,7 @@
 mod c45;
+mod c46;
+mod c47;
 
 fn main() {
-    vmon::run_main(&[("C45", c45::run)]);
+    vmon::run_main(&[("C45", c45::run), ("C46", c46::run), ("C47", c47::run)]);
 }
